@@ -1,7 +1,9 @@
-(* M6 - the load-time machinery of remote_pickle: RemoteState (state.py) transliterated
-   as a stack machine, driven by the events that unpickling a graph produces.
-   Hand-written from pyworkers/_remote_pickle/state.py and remote_reduce; pinned by
-   tools/pin.py and compared with the implementation by harness/props/c14.py. *)
+(* M6 - the load-time machinery of remote_pickle: RemoteState (state.py) transliterated as a stack machine, driven by
+   the events that unpickling a graph produces, and the pickler-side bookkeeping of remote_reduce that decides which
+   objects are ANNOUNCED by the object holding them (remote_pickler_3_6.py).
+   Hand-written from pyworkers/_remote_pickle/state.py and remote_reduce; pinned by tools/pin.py and compared with the
+   implementation by harness/props/c14.py (restored states, errors, AND the reduce callable / children_names chosen
+   for every instance on the dump side). *)
 From Coq Require Export ZArith List Bool Lia.
 Export ListNotations.
 Open Scope Z_scope.
@@ -14,51 +16,100 @@ Inductive node :=
 | Opt (id : nat) (has_setstate : bool) (fields : list (Z * node))   (* opt-in instance, first occurrence *)
 | Ref (id : nat).                                  (* later occurrence of an opt-in instance (memo hit), also back edges of cycles *)
 
+(* ---------- patches: nested dictionaries, by value ----------
+   (state.py copies every nested dictionary when it creates the entry for it, the context copies the top-level one:
+   the machine never writes into a dictionary of the caller; that no caller-owned dictionary is touched is checked on
+   the implementation directly) *)
+Inductive pv := PVal (z : Z) | PDict (d : list (Z * pv)) | PObjRef (id : nat).
+Definition pdict := list (Z * pv).
+
 (* restored field values *)
-Inductive rval := RAtom (z : Z) | RObj (id : nat) | RCont | RDict (addr : nat).
+Inductive rval := RAtom (z : Z) | RObj (id : nat) | RCont | RDictV (d : pdict).
 
 Inductive ev :=
-| ERecreate (id : nat) (names : list Z) (has_setstate : bool)
+| ERecreate (id : nat) (names : list Z) (has_setstate : bool) (announced : bool)
 | EBuild (id : nat) (state : list (Z * rval)).
 
-Definition is_opt (n : node) : bool := match n with Opt _ _ _ | Ref _ => true | _ => false end.
 Definition rval_of (n : node) : rval :=
   match n with Atom z => RAtom z | Opt id _ _ | Ref id => RObj id | _ => RCont end.
 
-(* the order in which pickle.loads recreates objects and calls __setstate__ *)
-Fixpoint events (n : node) : list ev :=
-  match n with
-  | Atom _ | Ref _ => []
-  | Lst items => (fix go (l : list node) := match l with [] => [] | x :: r => events x ++ go r end) items
-  | PObj fields => (fix go (l : list (Z * node)) := match l with [] => [] | (_, x) :: r => events x ++ go r end) fields
-  | Opt id hs fields =>
-      ERecreate id (map fst (filter (fun p => is_opt (snd p)) fields)) hs
-      :: (fix go (l : list (Z * node)) := match l with [] => [] | (_, x) :: r => events x ++ go r end) fields
-      ++ [EBuild id (map (fun p => (fst p, rval_of (snd p))) fields)]
+Definition state_of (fields : list (Z * node)) : list (Z * rval) := map (fun p => (fst p, rval_of (snd p))) fields.
+
+(* ---------- the pickler side: who is announced (remote_reduce, RemotePickler36.dump) ---------- *)
+Record pst := mkP { seen : list nat; ann : list nat }.
+Definition memb (x : nat) (l : list nat) : bool := existsb (Nat.eqb x) l.
+Definition remove_nat (x : nat) (l : list nat) : list nat := filter (fun y => negb (Nat.eqb x y)) l.
+
+(* the scan of the state in remote_reduce: a directly held opt-in value met for the first time is announced *)
+Fixpoint scan (fields : list (Z * node)) (s : pst) : list Z * pst :=
+  match fields with
+  | [] => ([], s)
+  | (k, v) :: r =>
+      match v with
+      | Opt j _ _ | Ref j =>
+          if memb j (seen s) then scan r s
+          else let '(ns, s') := scan r (mkP (j :: seen s) (j :: ann s)) in (k :: ns, s')
+      | _ => scan r s
+      end
   end.
 
-(* ---------- patch dictionaries as a heap of dict objects ---------- *)
-Inductive pv := PVal (z : Z) | PDictRef (addr : nat) | PObjRef (id : nat).
-Definition pdict := list (Z * pv).
-Definition heap := list (nat * pdict).
+(* the order in which pickle saves (and pickle.loads rebuilds) objects: reduce callable first, then the state, then BUILD *)
+Fixpoint events (n : node) (s : pst) : list ev * pst :=
+  match n with
+  | Atom _ | Ref _ => ([], s)
+  | Lst items =>
+      (fix go (l : list node) (s : pst) : list ev * pst :=
+         match l with [] => ([], s) | x :: r => let '(e1, s1) := events x s in let '(e2, s2) := go r s1 in (e1 ++ e2, s2) end) items s
+  | PObj fields =>
+      (fix go (l : list (Z * node)) (s : pst) : list ev * pst :=
+         match l with [] => ([], s) | (_, x) :: r => let '(e1, s1) := events x s in let '(e2, s2) := go r s1 in (e1 ++ e2, s2) end) fields s
+  | Opt id hs fields =>
+      let announced := memb id (ann s) in
+      let s1 := mkP (id :: seen s) (remove_nat id (ann s)) in
+      let '(names, s2) := scan fields s1 in
+      let '(es, s3) :=
+        (fix go (l : list (Z * node)) (s : pst) : list ev * pst :=
+           match l with [] => ([], s) | (_, x) :: r => let '(e1, s1) := events x s in let '(e2, s2) := go r s1 in (e1 ++ e2, s2) end) fields s2 in
+      (ERecreate id names hs announced :: es ++ [EBuild id (state_of fields)], s3)
+  end.
 
-Fixpoint hget (h : heap) (a : nat) : pdict :=
-  match h with [] => [] | (a', d) :: r => if Nat.eqb a' a then d else hget r a end.
-Fixpoint hset (h : heap) (a : nat) (d : pdict) : heap :=
-  match h with [] => [(a, d)] | (a', d') :: r => if Nat.eqb a' a then (a, d) :: r else (a', d') :: hset r a d end.
+(* RemotePickler36.dump: the top-level object counts as announced *)
+Definition dump_events (g : node) : list ev :=
+  fst (events g (match g with Opt id _ _ => mkP [id] [id] | _ => mkP [] [] end)).
+
+(* ---------- the structural reading of "announced": the top-level object and every directly held first occurrence ---------- *)
+Definition direct_names (fields : list (Z * node)) : list Z :=
+  map fst (filter (fun p => match snd p with Opt _ _ _ => true | _ => false end) fields).
+
+Fixpoint events_s (n : node) (announced : bool) : list ev :=
+  match n with
+  | Atom _ | Ref _ => []
+  | Lst items => (fix go (l : list node) := match l with [] => [] | x :: r => events_s x false ++ go r end) items
+  | PObj fields => (fix go (l : list (Z * node)) := match l with [] => [] | (_, x) :: r => events_s x false ++ go r end) fields
+  | Opt id hs fields =>
+      ERecreate id (direct_names fields) hs announced
+      :: (fix go (l : list (Z * node)) := match l with [] => [] | (_, x) :: r => events_s x true ++ go r end) fields
+      ++ [EBuild id (state_of fields)]
+  end.
+
+(* ---------- dictionaries ---------- *)
 Fixpoint dget (d : pdict) (k : Z) : option pv :=
   match d with [] => None | (k', v) :: r => if k' =? k then Some v else dget r k end.
 Fixpoint dset (d : pdict) (k : Z) (v : pv) : pdict :=
   match d with [] => [(k, v)] | (k', v') :: r => if k' =? k then (k, v) :: r else (k', v') :: dset r k v end.
+Fixpoint sget (st : list (Z * rval)) (k : Z) : option rval :=
+  match st with [] => None | (k', v) :: r => if k' =? k then Some v else sget r k end.
+Fixpoint sset (st : list (Z * rval)) (k : Z) (v : rval) : list (Z * rval) :=
+  match st with [] => [(k, v)] | (k', v') :: r => if k' =? k then (k, v) :: r else (k', v') :: sset r k v end.
 
 (* ---------- the machine ---------- *)
-Record frame := mkFr { parent_i : Z; fname : option Z; faddr : option nat }.
-Definition dummy : frame := mkFr (-1) None None.
+Record frame := mkFr { parent_i : Z; fname : option Z; fpat : pdict }.
+Definition dummy : frame := mkFr (-1) None [].
 
 Inductive merr := EAssert | EAttribute | EIndex | ETypeErr.
 
 Record mst := mkM {
-  stack : list frame; iter : Z; unused : bool; hp : heap;
+  stack : list frame; iter : Z; unused : bool;
   restored : list (nat * list (Z * rval))      (* final state handed to each object's __setstate__ *)
 }.
 
@@ -68,51 +119,48 @@ Definition nthZ {A} (l : list A) (i : Z) : option A := if i <? 0 then None else 
 Definition cur_frame (s : mst) : option frame :=
   if iter s <? 0 then Some dummy else nthZ (stack s) (iter s).
 
-Definition patches_of (s : mst) (f : frame) : pdict :=
-  match faddr f with Some a => hget (hp s) a | None => [] end.
-
 (* RemoteState.context.__init__ + __enter__ *)
-Definition enter (h : heap) (top : option nat) : mst :=
-  match top with
-  | Some a => match hget h a with
-              | [] => mkM [] (-1) true h []
-              | _ => mkM [mkFr (-1) None (Some a)] 0 true h []
-              end
-  | None => mkM [] (-1) true h []
+Definition enter (p : pdict) : mst :=
+  match p with
+  | [] => mkM [] (-1) true []
+  | _ => mkM [mkFr (-1) None p] 0 true []
   end.
 
-Fixpoint sub_frames (it : Z) (k : Z) (patches : pdict) (names : list Z) : list frame :=
-  match names with
-  | [] => []
-  | n :: r =>
-      match dget patches n with
-      | Some (PDictRef a) => mkFr (it + k) (Some n) (Some a) :: sub_frames it (k + 1) patches r
-      | _ => dummy :: sub_frames it (k + 1) patches r
-      end
+Definition sub_frame (it : Z) (patches : pdict) (n : Z) : frame :=
+  match dget patches n with
+  | Some (PDict d) => mkFr it (Some n) d
+  | _ => dummy
   end.
 
 Definition insert_at {A} (l : list A) (pos : nat) (x : list A) : list A := firstn pos l ++ x ++ skipn pos l.
 
-(* break_patches(names) *)
+(* break_patches(names): the entries of the children, the one restored next on top *)
 Definition break_patches (s : mst) (names : list Z) : option mst :=
   match cur_frame s with
   | None => None
   | Some f =>
-      let sub := sub_frames (iter s) 0 (patches_of s f) names in
+      let sub := map (sub_frame (iter s) (fpat f)) names in
       match sub with
       | [] => Some s
-      | _ => Some (mkM (insert_at (stack s) (Z.to_nat (iter s + 1)) sub) (iter s + 1) (unused s) (hp s) (restored s))
+      | _ => Some (mkM (insert_at (stack s) (Z.to_nat (iter s + 1)) (rev sub)) (iter s + Z.of_nat (length sub)) (unused s) (restored s))
       end
   end.
 
+(* recreate_unannounced_obj_and_patch_setstate: an empty entry of its own *)
+Definition push_empty (s : mst) : mst :=
+  mkM (stack s ++ [dummy]) (Z.of_nat (length (stack s))) (unused s) (restored s).
+
 Definition val_of_pv (p : pv) : rval :=
-  match p with PVal z => RAtom z | PDictRef a => RDict a | PObjRef id => RObj id end.
+  match p with PVal z => RAtom z | PDict d => RDictV d | PObjRef id => RObj id end.
 
-Fixpoint sset (st : list (Z * rval)) (k : Z) (v : rval) : list (Z * rval) :=
-  match st with [] => [(k, v)] | (k', v') :: r => if k' =? k then (k, v) :: r else (k', v') :: sset r k v end.
+Definition is_robj (o : option rval) : bool := match o with Some (RObj _) => true | _ => false end.
 
+(* patched_setstate: dictionary patches naming an opt-in entry of the state are not applied from here *)
 Definition apply_dict (st : list (Z * rval)) (d : pdict) : list (Z * rval) :=
-  fold_left (fun acc p => sset acc (fst p) (val_of_pv (snd p))) d st.
+  fold_left (fun acc p => match snd p with
+                          | PDict _ => if is_robj (sget st (fst p)) then acc else sset acc (fst p) (val_of_pv (snd p))
+                          | v => sset acc (fst p) (val_of_pv v)
+                          end) d st.
 
 Fixpoint remove_nth {A} (l : list A) (i : nat) : list A :=
   match l, i with
@@ -121,6 +169,15 @@ Fixpoint remove_nth {A} (l : list A) (i : nat) : list A :=
   | x :: r, S i' => x :: remove_nth r i'
   end.
 
+Fixpoint update_nth {A} (l : list A) (i : nat) (x : A) : list A :=
+  match l, i with
+  | [], _ => []
+  | _ :: r, O => x :: r
+  | y :: r, S i' => y :: update_nth r i' x
+  end.
+
+Definition is_nil {A} (l : list A) : bool := match l with [] => true | _ => false end.
+
 (* child_restored(obj) *)
 Definition child_restored (s : mst) (id : nat) : merr + mst :=
   if negb (iter s =? Z.of_nat (length (stack s)) - 1) then inl EAssert else
@@ -128,29 +185,30 @@ Definition child_restored (s : mst) (id : nat) : merr + mst :=
   | None => inl EIndex
   | Some f =>
       let pp := if parent_i f <? 0 then Some None
-                else match nthZ (stack s) (parent_i f) with Some pf => Some (faddr pf) | None => None end in
+                else match nthZ (stack s) (parent_i f) with Some pf => Some (Some pf) | None => None end in
       match pp with
       | None => inl EIndex
-      | Some paddr =>
-          let pdict_ := match paddr with Some a => hget (hp s) a | None => [] end in
-          let nonempty := match pdict_ with [] => false | _ => true end in
+      | Some pfo =>
+          let ppat := match pfo with Some pf => fpat pf | None => [] end in
+          let nonempty := negb (is_nil ppat) in
           let named := match fname f with Some _ => true | None => false end in
           if negb (Bool.eqb nonempty named) then inl EAssert else
-          let h' := match paddr, fname f with
-                    | Some a, Some n => if nonempty then hset (hp s) a (dset pdict_ n (PObjRef id)) else hp s
-                    | _, _ => hp s
-                    end in
+          let st' := match pfo, fname f with
+                     | Some pf, Some n =>
+                         if nonempty then update_nth (stack s) (Z.to_nat (parent_i f)) (mkFr (parent_i pf) (fname pf) (dset ppat n (PObjRef id)))
+                         else stack s
+                     | _, _ => stack s
+                     end in
           (* close_current_ctx *)
-          if iter s <? 0 then inr (mkM (stack s) (iter s) false h' (restored s))
-          else inr (mkM (remove_nth (stack s) (Z.to_nat (iter s))) (iter s - 1) false h' (restored s))
+          if iter s <? 0 then inr (mkM st' (iter s) false (restored s))
+          else inr (mkM (remove_nth st' (Z.to_nat (iter s))) (iter s - 1) false (restored s))
       end
   end.
 
 Definition mstep (s : mst) (e : ev) : merr + mst :=
   match e with
-  | ERecreate id names hs =>
-      if negb hs then inl EAttribute else
-      match break_patches s names with
+  | ERecreate id names hs announced =>
+      match break_patches (if announced then s else push_empty s) names with
       | Some s' => inr s'
       | None => inl EIndex
       end
@@ -158,8 +216,8 @@ Definition mstep (s : mst) (e : ev) : merr + mst :=
       match cur_frame s with
       | None => inl EIndex
       | Some f =>
-          let st' := apply_dict state (patches_of s f) in
-          child_restored (mkM (stack s) (iter s) (unused s) (hp s) (restored s ++ [(id, st')])) id
+          let st' := apply_dict state (fpat f) in
+          child_restored (mkM (stack s) (iter s) (unused s) (restored s ++ [(id, st')])) id
       end
   end.
 
@@ -169,14 +227,54 @@ Fixpoint mrun (s : mst) (es : list ev) : merr + mst :=
   | e :: r => match mstep s e with inr s' => mrun s' r | inl x => inl x end
   end.
 
-(* context.__exit__ without exception *)
+(* context.__exit__ without exception: everything consumed, or the patches of a top-level object that takes none are
+   still where __enter__ put them *)
 Definition mexit (s : mst) : merr + mst :=
   if unused s then inr s
-  else if negb (iter s =? -1) then inl EAssert
-  else match stack s with [] => inr s | _ => inl EAssert end.
+  else match stack s with
+       | [f] => if (iter s =? 0) && (parent_i f =? -1) && negb (match fname f with Some _ => true | None => false end)
+                then inr s else inl EAssert
+       | [] => if iter s =? -1 then inr s else inl EAssert
+       | _ => inl EAssert
+       end.
 
-Definition load (g : node) (h : heap) (top : option nat) : merr + mst :=
-  match mrun (enter h top) (events g) with
+Definition load_events (es : list ev) (p : pdict) : merr + mst :=
+  match mrun (enter p) es with
   | inr s => mexit s
   | inl e => inl e
   end.
+
+(* dumps followed by loads with patches p *)
+Definition load (g : node) (p : pdict) : merr + mst := load_events (dump_events g) p.
+
+(* ---------- the specification (C14 + C15): what every opt-in object is restored with, in restoration order ----------
+   Patches address the object they are given for; a dictionary under k addresses the direct child stored under k (its
+   first occurrence), a non-dictionary value under k replaces that entry; nothing else is touched. *)
+Definition sub_patches (p : pdict) (k : Z) : pdict :=
+  match dget p k with Some (PDict d) => d | _ => [] end.
+
+(* the patches of an object once its directly held children are restored: a dictionary that addressed a child stands
+   for that child *)
+Definition rebind (p : pdict) (fields : list (Z * node)) : pdict :=
+  fold_left (fun acc f => match snd f with
+                          | Opt j _ _ => match dget p (fst f) with
+                                         | Some (PDict _) => dset acc (fst f) (PObjRef j)
+                                         | _ => acc
+                                         end
+                          | _ => acc
+                          end) fields p.
+
+Fixpoint spec (n : node) (p : pdict) : list (nat * list (Z * rval)) :=
+  match n with
+  | Atom _ | Ref _ => []
+  | Lst items => (fix go (l : list node) := match l with [] => [] | x :: r => spec x [] ++ go r end) items
+  | PObj fields => (fix go (l : list (Z * node)) := match l with [] => [] | (_, x) :: r => spec x [] ++ go r end) fields
+  | Opt id hs fields =>
+      (fix go (l : list (Z * node)) := match l with
+                                       | [] => []
+                                       | (k, x) :: r => spec x (match x with Opt _ _ _ => sub_patches p k | _ => [] end) ++ go r
+                                       end) fields
+      ++ [(id, apply_dict (state_of fields) (rebind p fields))]
+  end.
+
+Definition top_patches (g : node) (p : pdict) : pdict := match g with Opt _ _ _ => p | _ => [] end.
